@@ -94,6 +94,7 @@ def run(check):
     ub_obligations(check, units, Q, T)
     init_obligations(check, Q, T)
     model_init_obligations(check, T)
+    model_ub_obligations(check, T)
 
 
 # ----------------------------------------------------------------------------------------------------------- lookups
@@ -328,6 +329,46 @@ def parse_obligations(check, units):
     check.add(ob)
     if ob.status == 'failed':
         replay_parsers(check, ob)
+    # 2b. a std::string_view is a (pointer, length) pair without a terminator: its data() pointer must not be handed to anything
+    #     that measures the string by its terminator (a const char* -> string / string_view conversion reads past size())
+    views = []
+    for o in a.walk():
+        if o.get('kind') in ('FunctionDecl', 'CXXMethodDecl') and low.has_body(o) and not low._in_use_ns(o) and low._is_phq_decl(o):
+            for x in a.walk(o):
+                if x.get('kind') == 'CXXMemberCallExpr':
+                    inner = x.get('inner', ())
+                    if inner and inner[0].get('kind') == 'MemberExpr' and inner[0].get('name') in ('data', 'begin', 'cbegin') and \
+                            'basic_string_view' in ((inner[0].get('inner') or [{}])[0].get('type', {}).get('qualType', '') + (inner[0].get('inner') or [{}])[0].get('type', {}).get('desugaredQualType', '')):
+                        if inner[0].get('name') == 'data':
+                            views.append((o, x))
+    ob = Ob('C20.parse.view-bounds', 'static', 'namespace PhQ', 'include/PhQ')
+    ob.backend = 'AST scan'
+    ob.text = 'no function of the library takes the data() pointer of a std::string_view (a view carries no terminator: anything that measures the string by its terminator reads past size()); parsing works on the view itself'
+    ob.status = 'discharged' if not views else 'failed'
+    check.add(ob)
+    if views:
+        fn = views[0][0]
+        ob.detail = '%s calls data() on a std::string_view (line %s)' % (fn.get('name'), (views[0][1].get('range', {}).get('begin', {}) or {}).get('line'))
+        cpp = ('// built with -fsanitize=address,undefined\n#include <PhQ/Unit/Time.hpp>\n#include <PhQ/UnitSystem.hpp>\n#include <cstdio>\n#include <vector>\n#include <string_view>\nint main() {\n'
+               '  int bad = 0;\n'
+               '  { const char buffer[] = "hr, 10 min"; const std::string_view token(buffer, 2);   // "hr", followed by more text\n'
+               '    const auto r = PhQ::ParseEnumeration<PhQ::Unit::Time>(token); if (!r.has_value() || r.value() != PhQ::Unit::Time::Hour) { std::printf("MISMATCH the 2-byte view \\"hr\\" inside a longer buffer does not parse to Hour\\n"); std::fflush(stdout); bad++; } }\n'
+               '  { const std::string_view token("s\\0x", 3);   // embedded NUL: not an accepted spelling\n'
+               '    if (PhQ::ParseEnumeration<PhQ::Unit::Time>(token).has_value()) { std::printf("MISMATCH the 3-byte string s,NUL,x parses to a unit\\n"); std::fflush(stdout); bad++; } }\n'
+               '  { std::vector<char> v{\'h\', \'r\'}; v.shrink_to_fit(); const std::string_view token(v.data(), v.size());   // no terminator anywhere: ASan sees the over-read\n'
+               '    (void)PhQ::ParseEnumeration<PhQ::Unit::Time>(token); }\n'
+               '  return bad ? 1 : 0;\n}\n')
+        rec = {'property': 'C20', 'obligation': ob.name, 'function': fn.get('name'), 'verifier_output': ob.detail, 'cpp': cpp, 'confirmed': False}
+        r, err = replay.build_and_run(cpp, os.path.join(check.work, 'replay'), 'r_' + re.sub(r'\W+', '_', ob.name), sanitize=True)
+        if err:
+            rec['replay_error'] = err[:600]
+        else:
+            rec['native_output'], rec['native_stderr'] = r.stdout[-800:], r.stderr[-800:]
+            if 'MISMATCH' in r.stdout or r.returncode != 0:
+                rec['confirmed'] = True
+                rec['mismatch'] = (r.stdout.strip().split('\n') if 'MISMATCH' in r.stdout else []) + ([l[:220] for l in r.stderr.split('\n') if 'ERROR: AddressSanitizer' in l or 'runtime error' in l][:2] if r.returncode != 0 else [])
+                rec['inputs'] = {'views': 'a prefix of a longer buffer; embedded NUL; unterminated heap buffer'}
+        check.violations.append((ob, write_replay(check, ob, rec), '' if rec['confirmed'] else 'no-failing-input-found'))
     # 3. the number parsers: one try block whose catch-all handler returns and does not throw; result assigned in the try
     seen = 0
     for o in parsers:
@@ -412,6 +453,50 @@ def replay_parsers(check, ob, tn=None):
 
 
 # ---------------------------------------------------------------------------------------------------------------- ub
+def ub_group(check, low, j):
+    key, fs = j
+    name = 'C20.ub.%s' % re.sub(r'[^\w.#<>,:]+', '', key)
+    ob = Ob(name, 'IEEE', key, None)
+    good, dropped = [], []
+    E = None
+    # functions outside the C subset are dropped one by one (recorded), the rest is checked
+    for f in fs:
+        try:
+            E1 = cemit.CEmitter(low)
+            nobody = [g.qualname for g in E1.closure([f]) if g.body is None]
+            if nobody:
+                dropped.append((f.qualname, 'calls %s, which is outside the C subset' % nobody[0]))
+                continue
+            E1.unit([f])
+            good.append(f)
+        except Unsupported as e:
+            dropped.append((f.qualname, str(e)[:80]))
+        except Exception as e:
+            dropped.append((f.qualname, '%s: %s' % (type(e).__name__, str(e)[:80])))
+    if not good:
+        ob.status, ob.detail = 'skipped', 'no function of this group is in the C subset'
+        return ob, dropped, 0
+    try:
+        E = cemit.CEmitter(low)
+        E.domain_asserts = False      # sqrt/acos of an out-of-domain argument is NaN, not undefined behaviour
+        E.abstract_sqrt = True        # values of square roots are irrelevant to the safety obligations
+        txt = E.unit(good) + harness_for(E, low, good)
+        r = cbmc.verify(txt, os.path.join(check.work, 'cbmc'), re.sub(r'\W+', '_', name), backend='sat', timeout=900, flags=UBFLAGS, unwind=12)
+        ob.seconds, ob.backend = r.seconds, r.backend
+        ob.text = '%d functions of %s on unconstrained inputs: %d safety properties generated by cbmc (%s) all hold' % (len(good), key, len(r.props), ' '.join(UBFLAGS))
+        if r.status == 'ok':
+            ob.status = 'discharged'
+        elif r.status == 'failed':
+            ob.status = 'failed'
+            ob.detail = 'cbmc FAILURE: ' + '; '.join('%s (%s)' % (p[0], p[2][:100]) for p in r.failed()[:5])
+            ob.cex = r.trace
+        else:
+            ob.status, ob.detail = 'undecided', '%s %s' % (r.status, r.note[:300])
+    except Unsupported as e:
+        ob.status, ob.detail = 'error', 'Unsupported: %s' % e
+    return ob, dropped, len(good)
+
+
 def ub_obligations(check, units, Q, T):
     """CBMC safety obligations on the extracted C of every function it can take, grouped per class."""
     low = Q.low
@@ -446,47 +531,7 @@ def ub_obligations(check, units, Q, T):
     check.extra['ub_groups'] = len(jobs)
 
     def go(j):
-        key, fs = j
-        name = 'C20.ub.%s' % re.sub(r'[^\w.#<>,:]+', '', key)
-        ob = Ob(name, 'IEEE', key, None)
-        good, dropped = [], []
-        E = None
-        # functions outside the C subset are dropped one by one (recorded), the rest is checked
-        for f in fs:
-            try:
-                E1 = cemit.CEmitter(low)
-                nobody = [g.qualname for g in E1.closure([f]) if g.body is None]
-                if nobody:
-                    dropped.append((f.qualname, 'calls %s, which is outside the C subset' % nobody[0]))
-                    continue
-                E1.unit([f])
-                good.append(f)
-            except Unsupported as e:
-                dropped.append((f.qualname, str(e)[:80]))
-            except Exception as e:
-                dropped.append((f.qualname, '%s: %s' % (type(e).__name__, str(e)[:80])))
-        if not good:
-            ob.status, ob.detail = 'skipped', 'no function of this group is in the C subset'
-            return ob, dropped, 0
-        try:
-            E = cemit.CEmitter(low)
-            E.domain_asserts = False      # sqrt/acos of an out-of-domain argument is NaN, not undefined behaviour
-            E.abstract_sqrt = True        # values of square roots are irrelevant to the safety obligations
-            txt = E.unit(good) + harness_for(E, low, good)
-            r = cbmc.verify(txt, os.path.join(check.work, 'cbmc'), re.sub(r'\W+', '_', name), backend='sat', timeout=900, flags=UBFLAGS, unwind=12)
-            ob.seconds, ob.backend = r.seconds, r.backend
-            ob.text = '%d functions of %s on unconstrained inputs: %d safety properties generated by cbmc (%s) all hold' % (len(good), key, len(r.props), ' '.join(UBFLAGS))
-            if r.status == 'ok':
-                ob.status = 'discharged'
-            elif r.status == 'failed':
-                ob.status = 'failed'
-                ob.detail = 'cbmc FAILURE: ' + '; '.join('%s (%s)' % (p[0], p[2][:100]) for p in r.failed()[:5])
-                ob.cex = r.trace
-            else:
-                ob.status, ob.detail = 'undecided', '%s %s' % (r.status, r.note[:300])
-        except Unsupported as e:
-            ob.status, ob.detail = 'error', 'Unsupported: %s' % e
-        return ob, dropped, len(good)
+        return ub_group(check, low, j)
     nf = 0
     alldropped = []
     for j, (ob, dropped, n) in zip(jobs, pmap(go, jobs)):
@@ -650,6 +695,32 @@ def run_init(check, low, per_class, T, cpp_name=None, includes=None):
             ctors = [f for f, w in bad if f.kind == 'ctor']
             adjudicate_init(check, low, ob, (ctors or [bad[0][0]])[0], T, cpp_name=cpp_name, includes=includes)
     return n, bad_total
+
+
+def model_ub_obligations(check, T):
+    """CBMC safety obligations on the extracted members of the three constitutive-model classes."""
+    from .models_common import Models
+    from ..tu import MODELS
+    M = Models(check, types=(T,))
+    low = M.low
+    jobs = []
+    for m in MODELS:
+        canon = M.canon(m, T)
+        if canon in low.records:
+            fs = [f for f in M.methods(canon) if not has_loop(f.body)]
+            if fs:
+                jobs.append((canon, fs))
+    n = 0
+    for j, (ob, dropped, k) in zip(jobs, pmap(lambda j: ub_group(check, low, j), jobs)):
+        n += k
+        if ob.status == 'skipped':
+            continue
+        check.add(ob)
+        if ob.status == 'failed':
+            adjudicate_ub(check, low, ob, j[1])
+    check.extra['model_ub_functions_checked'] = n
+    if n < 30:
+        check.error('must-fire: expected >= 30 model functions under the ub obligations, got %d' % n)
 
 
 def model_init_obligations(check, T):
